@@ -35,5 +35,5 @@ Proof.
   assert (Hm : matcher_hyps_okb (i_rule inp) (i_host inp) (i_calls inp) = true).
   { rewrite Ei. unfold matcher_hyps_okb. rewrite Hwh, Hw', Hc', (left_of_rcb_dec tpl' (nodupb_NoDup _ Hnd)), Hcalls. reflexivity. }
   pose proof (its_list_sound_matcher inp tpl' _ _ gs Ei Hm Hits g Ig) as Hi. split; [exact Hi|].
-  intros Hb. destruct Hi as (hb & m & T & tbl & _ & _ & _ & _ & _ & _ & _ & _ & A4 & _). apply A4. rewrite Hb'. exact Hb.
+  intros Hb. destruct Hi as (hb & m & T & tbl & _ & _ & _ & _ & _ & _ & _ & _ & _ & A4 & _). apply A4. rewrite Hb'. exact Hb.
 Qed.
